@@ -46,6 +46,20 @@ def generate(rng, tier='quick', kind=None, mode='history', **kw):
       ops.append({'t': round(t, 3), 'op': 'steady', 'c': c, 'dur': 70.0, 'svc': round(svc, 3)})
       t += 75.0
     return {'world': 'w_bal', 'cfg': cfg, 'ops': ops, 'mode': 'steady'}
+  if mode == 'jitter' and kind == 'aperture':
+    # jitter rounds (expand one, wait for its open, contract one) racing with
+    # membership changes: slow opens, aperture at min_size, few idle members
+    mn = rng.randint(2, 3)
+    n = mn + rng.randint(1, 2)
+    cfg.update({'n': n, 'initial': list(range(n)), 'get_delay': 0, 'init_failures': 0,
+                'open_delay': rng.choice([0.3, 0.6, 0.9]), 'open_sync': False})
+    cfg['aperture'] = {'min_size': mn, 'max_size': 2 ** 31, 'min_load': 0.5, 'max_load': 2.0,
+                       'jitter_min_sec': 1, 'jitter_max_sec': 2}
+    t = 1.0
+    for _ in range(rng.randint(6, 30)):
+      t += rng.choice([0.1, 0.3, 0.5, 0.8, 1.1])
+      ops.append({'t': round(t, 3), 'op': rng.choice(['leave', 'join', 'leave']), 'member': rng.randrange(n)})
+    return {'world': 'w_bal', 'cfg': cfg, 'ops': ops, 'mode': 'jitter'}
   n_ops = rng.randint(20, 120 if not big else 400)
   cid = 0
   for _ in range(n_ops):
